@@ -33,6 +33,10 @@ def build(tier):
     seqs = [()] + [(a,) for a in al] + list(itertools.product(al, al))
     if tier == "thorough":
         seqs += list(itertools.product(al, al, al))
+    else:
+        import os
+        sd = int(os.environ.get("VERIF_SEED", "0") or 0)
+        seqs += [t for i, t in enumerate(itertools.product(al, al, al)) if i % 6 == sd % 6]      # a sixth of the length-3 sequences
     for s in seqs:
         qs.append(sq(2, 2, list(s)))
     al23 = alphabet(2, 3)
@@ -50,10 +54,10 @@ def build(tier):
     meta = dict(
         units=["binary_matrix/of_matrix_sparse.c", "binary_matrix/of_matrix_convert.c", "binary_matrix/of_matrix_dense.c (conversion target)"],
         functions_encoded=["of_mod2sparse_{allocate,free,clear,insert,find,delete,copy,copyrows,copycols,copy_filled_matrix}", "of_mod2sparse_to_dense", "of_mod2dense_to_sparse", "of_alloc_entry (block allocation, free list)"],
-        bounds="REDUCED FORM (DESIGN 4.C17): the operation sequence is a concrete parameter, so each query has zero free input bits and the solver decides the memory-safety (dereference of freed/NULL/out-of-object, leak at exit) and model-agreement VCs of that one path. Exhaustive over all sequences of length <= %d on a 2x2 matrix over the alphabet {insert(i,j), delete(i,j), clear, copy, copyrows, copycols, dense round-trip, copy_filled_matrix, swap} (17 letters) and length <= %d on 2x3, entry block size 2 so that block allocation and free-list recycling occur, plus 3 hand-written histories of 9-10 operations at block sizes 2 and 8; after EVERY operation all row and column traversals, find() on every cell and idempotent insert are compared with the bit model of both matrices" % (3 if tier == "thorough" else 2, 2 if tier == "thorough" else 1),
+        bounds="REDUCED FORM (DESIGN 4.C17): the operation sequence is a concrete parameter, so each query has zero free input bits and the solver decides the memory-safety (dereference of freed/NULL/out-of-object, leak at exit) and model-agreement VCs of that one path. Exhaustive over all sequences of length <= %d (quick: plus one sixth of the length-3 sequences, rotated by VERIF_SEED) on a 2x2 matrix over the alphabet {insert(i,j), delete(i,j), clear, copy, copyrows, copycols, dense round-trip, copy_filled_matrix, swap} (17 letters) and length <= %d on 2x3, entry block size 2 so that block allocation and free-list recycling occur, plus 3 hand-written histories of 9-10 operations at block sizes 2 and 8; after EVERY operation all row and column traversals, find() on every cell and idempotent insert are compared with the bit model of both matrices" % (3 if tier == "thorough" else 2, 2 if tier == "thorough" else 1),
         outside_bounds="symbolic operation sequences (one symbolic step on a 3x3 matrix costs 130 s, three give no verdict: every dereference of a symbolic link splits over all entries); longer sequences and larger matrices; the _opt copy variants and xor/swap rows (static helpers of a disabled decoder)",
         stubs=[], assumptions=STD_ASSUMPTIONS[:2] + ["entry block size 2 (or 8) through the OPENFEC_VERIF_SPARSE_BLOCK hook instead of 1024"],
-        exhaustive=True,
-        rule="one CBMC query per concrete operation sequence; non-trivial = the end-of-harness witness is reached (free_input_bits is 0 by design, see bounds)",
+        exhaustive=True, count_zero_free_bits=True,
+        rule="one CBMC query per concrete operation sequence; non-trivial = a non-empty operation sequence whose end-of-harness witness is reached and that generated at least one verification condition (free_input_bits is 0 by design, see bounds)",
     )
     return qs, meta
